@@ -18,7 +18,7 @@ DEMODST=$(grep -o 'crates/[a-z-]*/tests' _seed/README.md | head -1)
 [ -z "$DEMODST" ] && DEMODST=crates/oxidd/tests
 DEMONAME=$(basename "$DEMO" .rs)
 CRATE=$(echo $DEMODST | cut -d/ -f2)
-run_demo() { cp "$DEMO" $DEMODST/ && timeout 1200 cargo test --offline -p $CRATE --test $DEMONAME > $1 2>&1; local rc=$?; rm -f $DEMODST/$(basename $DEMO); return $rc; }
+run_demo() { mkdir -p $DEMODST && cp "$DEMO" $DEMODST/ && timeout 1200 cargo test --offline -p $CRATE ${DEMO_FLAGS:-} --test $DEMONAME > $1 2>&1; local rc=$?; rm -f $DEMODST/$(basename $DEMO); return $rc; }
 run_demo $DST/demo_clean.log; CLEAN=$?
 git apply _seed/patch.diff
 timeout 3000 cargo test --workspace --no-fail-fast --offline > $DST/suite_with_change.log 2>&1; SUITE=$?
